@@ -46,7 +46,7 @@ int main(int argc, char** argv) {
     // NOTE: a constructor frame "returns" into the frame below it (callsite == nullptr), so ctors run first, then the harness.
     work.push_back(std::move(s0));
     // seeding phase: breadth-first until there are enough states to distribute
-    size_t target = jobs > 1 ? (size_t)jobs * 6 : 0;
+    size_t target = jobs > 1 ? (size_t)jobs * 6 : 0; X.yieldOnFork = jobs > 1;
     while (!work.empty() && (jobs <= 1 || work.size() < target)) {
       State s = jobs > 1 ? std::move(work.front()) : std::move(work.back()); if (jobs > 1) work.pop_front(); else work.pop_back();
       std::vector<State> out; X.run(std::move(s), out); for (auto& o : out) work.push_back(std::move(o));
@@ -61,7 +61,7 @@ int main(int argc, char** argv) {
   while (next < seeds.size() || running > 0) {
     while (running < jobs && next < seeds.size()) {
       pid_t p = fork();
-      if (p == 0) { resetStats(); X.fnSeen.clear(); X.srcFns.clear(); X.bbSeen.clear(); int crc = 0; std::vector<State> st; st.push_back(std::move(seeds[next]));
+      if (p == 0) { X.yieldOnFork = false; resetStats(); X.fnSeen.clear(); X.srcFns.clear(); X.bbSeen.clear(); int crc = 0; std::vector<State> st; st.push_back(std::move(seeds[next]));
         try { while (!st.empty()) { State s = std::move(st.back()); st.pop_back(); X.run(std::move(s), st); } }
         catch (Unsupported& u) { ST.inconclusive = u.what; crc = 3; } catch (z3::exception& e) { ST.inconclusive = std::string("z3: ") + e.msg(); crc = 3; }
         writePart(outdir, (int)next + 1, X, nowS()); _exit(crc); }
